@@ -7,9 +7,9 @@ def run(ctx):
     exe = build.driver("asan", "c15_cont", ["c15_cont.c"])
     q = ctx.quick
     jobs = []
-    n = 8 if q else 32
-    per_t = 40000 if q else 1000000
-    per_l = 40000 if q else 1000000
+    n = 16 if q else 32
+    per_t = 250000 if q else 1000000
+    per_l = 250000 if q else 1000000
     for i in range(n):
         jobs.append(dict(cmd=[exe, "--mode", "table", "--ops", str(per_t), "--seed", str(ctx.seed * 1000 + i)], variant="asan", tag="table seed%d" % i, san_ctx="hashtable"))
         jobs.append(dict(cmd=[exe, "--mode", "list", "--ops", str(per_l), "--seed", str(ctx.seed * 1000 + i)], variant="asan", tag="list seed%d" % i, san_ctx="list"))
